@@ -1,6 +1,7 @@
 package world
 
 import (
+	"bytes"
 	"context"
 	"crypto"
 	"crypto/rand"
@@ -9,6 +10,8 @@ import (
 	"fmt"
 	"io"
 	"time"
+
+	"github.com/miekg/pkcs11"
 
 	"github.com/sassoftware/relic/v8/config"
 	"github.com/sassoftware/relic/v8/lib/passprompt"
@@ -148,6 +151,10 @@ func (t *SimToken) perform(ctx context.Context, seq int, out TokOutcome, key str
 		err = token.KeyUsageError{Key: key, Err: errors.New("simulated: key does not permit this operation")}
 	case "notimpl":
 		err = token.NotImplementedError{Op: "sign", Type: SimTokenType}
+	case "pkcs11-fatal":
+		err = pkcs11.Error(pkcs11.CKR_DEVICE_REMOVED)
+	case "pkcs11-user":
+		err = pkcs11.Error(pkcs11.CKR_KEY_FUNCTION_NOT_PERMITTED)
 	case "hang":
 		<-ctx.Done()
 		err = ctx.Err()
@@ -196,9 +203,18 @@ func (t *SimToken) GetKey(ctx context.Context, keyName string) (token.Key, error
 	}
 	t.W.mu.Lock()
 	km := t.W.Keys[label]
+	if want := token.KeyID(ctx); len(want) != 0 {
+		// the caller pins a key identifier: only that generation will do
+		km = nil
+		for _, g := range t.W.KeyHistory[label] {
+			if bytes.Equal(g.ID, want) {
+				km = g
+			}
+		}
+	}
 	t.W.mu.Unlock()
 	if km == nil {
-		return nil, fmt.Errorf("sim token: no key material labelled %q", label)
+		return nil, fmt.Errorf("sim token: no key material labelled %q (id %x)", label, token.KeyID(ctx))
 	}
 	return &SimKey{T: t, Conf: keyConf, KM: km, Name: keyName}, nil
 }
@@ -254,4 +270,12 @@ func (w *World) TokOpCount() int {
 	w.mu.Lock()
 	defer w.mu.Unlock()
 	return len(w.TokOps)
+}
+
+// SetKey installs (or rotates to) a key generation for label.
+func (w *World) SetKey(label string, km *KeyMaterial) {
+	w.mu.Lock()
+	defer w.mu.Unlock()
+	w.Keys[label] = km
+	w.KeyHistory[label] = append(w.KeyHistory[label], km)
 }
